@@ -83,6 +83,7 @@ theorem merge_guard_run (fix : Bool) (es : List Event) (hw : ∀ e ∈ es, e.wf)
   | flag f => simp [step] at ho
   | batchFailed => simp [step] at ho
   | githubFailed => simp [step] at ho
+  | githubPartial s k => simp [step] at ho
   | github s => simp [step] at ho
   | batch => simp [step] at ho
   | done id ok' => simp [step] at ho
@@ -126,11 +127,12 @@ theorem no_target_no_merge (st : State) (a : Answers) (hs : st.sha = none) (n : 
     rw [this] at hm
     exact mergeable_needs_sha p hm
 
-/-- (c) …only a GitHub refresh learns the target sha again… -/
+/-- (c) …only a GitHub refresh (complete, or aborted after the branch ref was read) learns the target sha again… -/
 theorem only_github_sets_target (fix : Bool) (st : State) (e : Event) (hs : st.sha = none)
-    (he : ∀ s, e ≠ .github s) : (step fix st e).1.sha = none := by
+    (he : ∀ s, e ≠ .github s) (hp : ∀ s k, e ≠ .githubPartial s k) : (step fix st e).1.sha = none := by
   cases e with
   | github s => exact absurd rfl (he s)
+  | githubPartial s k => exact absurd rfl (hp s k)
   | githubFailed => exact hs
   | batchFailed => exact hs
   | flag f => cases f <;> exact hs
@@ -175,6 +177,7 @@ theorem notification_survives_until_refresh (fix : Bool) (es : List Event) (hes 
     cases e with
     | github s => exact absurd rfl (hes _ List.mem_cons_self s)
     | githubFailed => rfl
+    | githubPartial s k => rfl
     | batchFailed => exact h
     | flag f => cases f <;> simp [step, evFlag, h]
     | batch => simpa [step, evBatch] using h
@@ -265,6 +268,7 @@ theorem step_false_eq_true (st : State) (e : Event) (h : e = .batch → NoStaleS
   | flag f => rfl
   | batchFailed => rfl
   | githubFailed => rfl
+  | githubPartial s k => rfl
   | github s => rfl
   | heal a => rfl
   | done id ok => rfl
